@@ -45,6 +45,7 @@ def run(ck):
               sig=lambda c, e, o: "buffered-conn-order")
     session_streams(ck)
     two_sessions(ck)
+    pool_sessions(ck)
     return ck.finish(rule="(1) Write/Flush scripts on buffered.Conn over a scripted socket: write sizes 0..64, around the 8 KiB buffer "
                           "(+-80), up to 3x the buffer, flush rates 1..1000/s so that both limiter verdicts occur; "
                           "non-trivial = at least two non-empty writes. (2) a real playing RTSP session (TCP interleaved, every 4th "
@@ -57,12 +58,24 @@ def run(ck):
                           "(3) two or three RTSP/TCP viewers of one stream with different channel maps on their own scripted connections, one "
                           "P: viewer 0 is parked inside the socket write of a frame prefix (queue emptied, flush token available: the socket "
                           "reads the caller's slice) or between its halves while the others deliver frames of other lengths and channels, then "
-                          "it continues; ok_sink per connection against that connection's own frames and keep-alive answers",
+                          "it continues; ok_sink per connection against that connection's own frames and keep-alive answers. "
+                          "(4) pool-sessions: histories on the production HTTP handler over in-memory connections with real gorilla clients: 1-3 "
+                          "earlier WSP / ws-rtsp sessions that answer 1-3 keep-alives (some play one packet) and disconnect, then one or two "
+                          "playing sessions (WSP control+data channel or ws-rtsp, different interleaved channel maps), 1-4 packets of 1..12000 "
+                          "bytes (below, around and above gorilla's 4 KiB write buffer and its 8 KiB direct-write limit) against 1-4 keep-alive "
+                          "OPTIONS / PLAY / GET_PARAMETER; one P, no GC, pools emptied before the case; forced meetings (media goroutine parked "
+                          "between frame prefix and payload / inside the frame's socket write / responder parked inside its socket write while "
+                          "the others compose and send) then scripted choices among publish / request / step a goroutine; the proved oracle "
+                          "ok_pool on the messages each client read and on both pools drained after everybody left; non-trivial = at least one "
+                          "packet, one request and one earlier session that answered a keep-alive",
                      trusted=["net.Conn.Write writes the whole slice or returns an error (its contract)",
                               "the rate limiter's verdict is an arbitrary boolean per call (the theorem quantifies over it)",
                               "schedule controller harness/sched: a goroutine parked at a point or blocked on the lock does not run",
                               "ws-rtsp: one Write on the websocket.Conn is one WebSocket message (gorilla NextWriter/Close in network/websocket)",
-                              "intended response bytes = the server's own answer to the same request taken while nothing else writes, CSeq substituted"])
+                              "intended response bytes = the server's own answer to the same request taken while nothing else writes, CSeq substituted",
+                              "pool-sessions: sync.Pool on one P without GC hands out what was put (runtime/sync internals); net.Pipe + real http.Server + "
+                              "gorilla client deliver WebSocket messages unchanged; WSP header lines are compared sorted (the server writes them in map order); "
+                              "VerifDrainBuffers (verif tag) returns what is in the package pools at quiescence"])
 
 
 # ---------------------------------------------------------------- session level: a real playing session under the schedule controller
@@ -202,3 +215,137 @@ def two_sessions(ck):
     ck.extra["two_sessions_parked_in_prefix_write"] = parked
     if parked < len(cases) // 2:
         ck.broken.append(Broken("C13 two-sessions: the viewer was parked inside a frame's socket write in only %d of %d cases" % (parked, len(cases))))
+
+
+# ---------------------------------------------------------------- WebSocket transports: the pooled staging buffers
+POOL_SIZES = [1, 8, 40, 120, 300, 700, 1400, 4070, 4085, 4100, 5000, 8170, 8190, 8210, 9000, 12000]
+
+def _pool_pkt(rng, seq, big):
+    n = rng.choice(POOL_SIZES[7:]) if big else rng.choice(POOL_SIZES[:7])
+    body = (_vpkt if rng.random() < 0.7 else _apkt)(rng, seq, n)
+    if rng.random() < 0.25:
+        body[1] = body[1][:16] + b"RTSP/1.0 200 OK\r\nCSeq: 1\r\n\r\n$\x00\x00\x05" + body[1][16:]
+        if body[0] == 2:
+            n2 = len(body[1]) - 16
+            body[1] = body[1][:14] + bytes([(n2 >> 5) & 255, (n2 << 3) & 255]) + body[1][16:]
+    return body
+
+def gen_pool(rng, i):
+    earlier = [[rng.choice([3, 3, 2]), rng.randint(1, 3), 1 if rng.random() < 0.3 else 0] for _ in range(rng.randint(1, 3))]
+    if i % 5 == 4:
+        earlier = []                      # a first session on empty pools
+    maps = [[0, 1, 2, 3], [4, 5, 6, 7], [2, 3, 0, 1], [8, 9, 10, 11]]
+    rng.shuffle(maps)
+    k0 = rng.choice([3, 2])
+    # two sessions of one kind share one package pool (wsp or rtsp); a mixed pair shares the stream only
+    kinds = [k0] if rng.random() < 0.35 else [k0, k0 if rng.random() < 0.65 else 5 - k0]
+    if i % 4 in (1, 2) and kinds == [2]:
+        kinds = [2, 2]                    # one ws-rtsp session alone: lockW keeps its other goroutine out while one is inside a socket write
+    playing = [[k, maps[j]] for j, k in enumerate(kinds)]
+    for pl in playing:
+        if rng.random() < 0.15:
+            pl[1] = pl[1][:2] + [-1, -1]  # video track only: audio packets are not for this viewer
+    npk = rng.randint(1, 4)
+    bigs = [rng.random() < 0.45 for _ in range(npk)]
+    if i % 4 == 1:
+        bigs[0] = True                    # the frame whose socket write is parked does not fit gorilla's write buffer
+    pk = [_pool_pkt(rng, k + 1, bigs[k]) for k in range(npk)]
+    rq = [[rng.randrange(len(playing)), rng.choice([0, 0, 4, 8])] for _ in range(rng.randint(1, 4))]
+    sched = [rng.randrange(64) for _ in range(rng.randint(0, 40))]
+    return [earlier, playing, pk, rq, [i % 4, rng.randrange(len(playing))], sched]
+
+def _pool_progs(sessions):
+    """the goroutines as the code has them: per playing session a media goroutine (Get, prefix, payload, one message on
+    the data connection, Put) and a request goroutine (WSP: one buffer per request, Puts deferred to the end of the
+    session; ws-rtsp: Get .. Put inside response())"""
+    progs = []
+    for kind, ctrl, data, frames, resps in sessions:
+        m = []
+        for f in frames:
+            m += [[0, 0, 1], [2, 0, f[:4]], [2, 0, f[4:]], [3, 0, data], [4, 0]]
+        progs.append(m)
+        r = []
+        if kind == 3:
+            for k, t in enumerate(resps):
+                r += [[0, k, 1], [2, k, t], [3, k, ctrl]]
+            r += [[4, k] for k in reversed(range(len(resps)))]
+        else:
+            for t in resps:
+                r += [[0, 0, 1], [2, 0, t], [3, 0, ctrl], [4, 0]]
+        progs.append(r)
+    return progs
+
+def _pool_split(conns):
+    return [[c[0], [m for m in c[1] if m[:1] == b"$"], [m for m in c[1] if m[:1] != b"$"]] for c in conns]
+
+def pool_sessions(ck):
+    rng = ck.rng
+    n = 400 if ck.thorough else 40
+    cases = [gen_pool(rng, i) for i in range(n)]
+    obs = ck.stream("pool-sessions", cases, None, "C13_pool", None, compare=False, timeout=1500,
+                    nontrivial=lambda c: len(c[2]) >= 1 and len(c[3]) >= 1 and any(e[1] >= 1 for e in c[0]),
+                    sig=lambda c, e, o: "pool")
+    if len(obs) != len(cases):
+        return
+    ok_lines, run_lines, idx = [], [], []
+    forced = {0: 0, 1: 0, 2: 0}
+    for i, (c, o) in enumerate(zip(cases, obs)):
+        v = vparse(o)
+        if not (isinstance(v, list) and len(v) == 7 and isinstance(v[0], list) and isinstance(v[1], list)):
+            ck.fail("pool-sessions", "pool-harness", vs(c), observed=o, note="harness could not run the case")
+            continue
+        conns, sessions, wsp_pool, rtsp_pool, bad, frc, note = v
+        # intended frames are computed here from the case (packet bytes, channel map of the SETUP) and must be what the
+        # harness published; one intended response per request
+        good = len(sessions) == len(c[1])
+        for j, s in enumerate(sessions if good else []):
+            m = c[1][j][1]
+            want = [b"$" + bytes([m[p[0]], len(p[1]) >> 8, len(p[1]) & 255]) + p[1] for p in c[2] if m[p[0]] >= 0]
+            nreq = sum(1 for q in c[3] if q[0] % len(c[1]) == j)
+            good = good and s[3] == want and len(s[4]) == nreq and s[0] == c[1][j][0]
+        if not good:
+            ck.fail("pool-sessions", "pool-harness", vs(c), observed=o, note="intended messages differ from the case")
+            continue
+        if bad:
+            ck.fail("pool-sessions", "pool-setup-message", vs(c), observed=o,
+                    note="a WebSocket message of the sequential phase is not exactly one complete response: %r" % bad[0][:120])
+        progs = _pool_progs(sessions)
+        drained = list(wsp_pool) + [1000 + b for b in rtsp_pool]
+        ok_lines.append("((%s) (%s ()))" % (vs(progs), vs(conns)))       # the messages
+        ok_lines.append("((%s) (() %s))" % (vs(progs), vs(drained)))     # the ownership probe
+        # the model on the same goroutines under a schedule of its own (the theorem: the per-sender sequences do not depend on it)
+        order = [t for t, p in enumerate(progs) for _ in p]
+        rng.shuffle(order)
+        msched = [[t, rng.choice([0, 0, 1, 7])] for t in order]
+        run_lines.append("(%s %s %s)" % (vs(progs), vs(msched), vs([k[0] for k in conns])))
+        idx.append(i)
+        if frc == 1:
+            forced[c[4][0]] = forced.get(c[4][0], 0) + 1
+    try:
+        oks = run_driver(ck.prop, "C13_pool_ok", ok_lines)
+        runs = run_driver(ck.prop, "C13_pool_run", run_lines)
+    except Broken as b:
+        ck.broken.append(b)
+        return
+    for n_, i in enumerate(idx):
+        ck.count(1, "pool" + str(i))
+        c, o = cases[i], obs[i]
+        msg_ok, own_ok = oks[2 * n_] == "1", oks[2 * n_ + 1] == "1"
+        if not msg_ok:
+            ck.fail("pool-sessions", "pool-message", vs(c), observed=o,
+                    note="a WebSocket message is not exactly one complete response or one complete frame of its sender, in the sender's order")
+        if not own_ok:
+            ck.fail("pool-sessions", "pool-ownership", vs(c), observed=o,
+                    note="after everybody left, a staging buffer is in a pool more than once")
+        mv = vparse(runs[n_])
+        if mv[2] != 1 or mv[3] != 1:
+            ck.broken.append(Broken("C13 pool: the model did not finish the goroutines built from case %d" % i))
+        elif msg_ok and _pool_split(mv[0]) != _pool_split(vparse(o)[0]):
+            ck.divergences.append({"stream": "pool-sessions", "case": vs(c), "expected": runs[n_], "observed": o,
+                                   "run_fn": "C13_pool_run", "vh_cmd": "C13_pool", "ok_fn": "C13_pool_ok"})
+    ck.extra.update({"pool_forced_prefix": forced[0], "pool_forced_socket_write": forced[1], "pool_forced_responder": forced[2]})
+    need = max(2, len(cases) // 8)
+    if min(forced.values()) < need:
+        ck.broken.append(Broken("C13 pool-sessions: the schedules no longer force a goroutine to compose and send while another holds "
+                                "its buffer (prefix %d, socket write %d, responder %d; need %d each)"
+                                % (forced[0], forced[1], forced[2], need)))
